@@ -158,6 +158,10 @@ func (c13) Exec(c Case) []string {
 	var wg sync.WaitGroup
 	sem := make(chan struct{}, 12) // at most 12 supervised clients at a time
 	for i, op := range c.Ops {
+		if op[0] == "outage" && len(op) == 2 {
+			obs[i] = c13outage(op[1])
+			continue
+		}
 		if op[0] != "script" || len(op) != 4 {
 			obs[i] = "bad-op"
 			continue
@@ -172,6 +176,35 @@ func (c13) Exec(c Case) []string {
 	}
 	wg.Wait()
 	return obs
+}
+
+// c13outage: the waits the retry loop of the StreamManager takes in an outage of n failed attempts (the back-off with
+// the package defaults, as StreamManager.resume builds it): every one of them is computed without a panic and lies in
+// [0, cap] - an outage of any length neither kills the supervisor nor makes it spin or sleep for ever.
+func c13outage(ns string) string {
+	n, err := strconv.Atoi(ns)
+	if err != nil || n < 0 || n > 100000 {
+		return "bad-op"
+	}
+	bo := xmpp.NewVerifBackoff(0, 0, 0, false)
+	bad, max := "-", time.Duration(0)
+	for k := 0; k < n && bad == "-"; k++ {
+		func() {
+			defer func() {
+				if r := recover(); r != nil {
+					bad = fmt.Sprintf("%d:panic", k)
+				}
+			}()
+			d := bo.DurationForAttempt(k)
+			if d < 0 {
+				bad = fmt.Sprintf("%d:negative", k)
+			}
+			if d > max {
+				max = d
+			}
+		}()
+	}
+	return fmt.Sprintf("bad=%s maxms=%d", bad, int64(max/time.Millisecond))
 }
 
 func waitConn(ch chan net.Conn, d time.Duration) net.Conn {
@@ -511,6 +544,15 @@ func (c13) Generate(rng *rand.Rand, tier string, st *Stats) []Case {
 	mkm("nosmtls", "o", "drop:h")
 	mkm("smtls", "o", "drop:o;graceful:t,h")
 	mkm("smtls", "o", "drop:u")
+	// an outage of any length: the waits of 100, 1000 and (thorough) 20000 consecutive failed attempts (an hour and
+	// more with the default back-off; the loop itself is run in real time for a few attempts only, by C19's check)
+	for _, n := range []string{"100", "1000"} {
+		ops = append(ops, []string{"outage", n})
+		st.Inc("long_outage_waits")
+	}
+	if tier == "thorough" {
+		ops = append(ops, []string{"outage", "20000"})
+	}
 	endings := []string{"drop", "graceful", "wfail"}
 	attSeqs := []string{"o", "t,o", "x,o", "T,t,o", "r,o", "x,T,o", "p", "t,P"}
 	for _, sm := range []bool{false, true} {
